@@ -15,7 +15,7 @@ CONSTANTS
   MaxId = 4
   MaxWal = 3
   MaxTerm = 2
-  MaxIdx = 2
+  MaxIdx = 1
   GenDepth = 14
   AtomicClose = FALSE
   OlderSel = {0}
